@@ -145,6 +145,20 @@ func (s *LinearState) Load(ctx *Context) error {
 			return err
 		}
 		s.Facts[id] = RawFact{m, js}
+
+		if s.addHook != nil {
+			// As when the fact was added (IndexedState does the
+			// same): for example, a cron that isn't persistent
+			// needs to hear about scheduled rules again.
+			loading := true
+			if loc := ctx.GetLoc(); loc != nil {
+				loading = loc.loading
+			}
+			if err = s.addHook(ctx, s, id, m, loading); err != nil {
+				Log(ERROR, ctx, "LinearState.Load", "state", s.Name, "error", err, "when", "addHook", "id", id)
+				return err
+			}
+		}
 	}
 
 	Log(DEBUG, ctx, "LinearState.Load", "location", s.Name, "facts", len(s.Facts))
